@@ -26,7 +26,7 @@ PROPS = {
         "level": "exploration",
         "technique": "deviation-bounded exhaustive enumeration of request byte strings (0, 1, 2 departures from well-formed) through the real Request::read and every public accessor, against an independent reference parser of the supported subset; stalls are decided by a counting-waker executor, not timed",
         "engine": "vmc",
-        "level_text": "Bounded exhaustive exploration of the input space organised by deviations: deviation 0 = the full product of menus (methods x 12 targets x ordered selections of 0..2 (quick) / 0..3 (thorough) header lines from a 13-line menu covering canonical/lower/mixed-case standard names, custom names in two cases, repeated names, empty and odd values x bodies incl. NUL-leading ones and bodies ending exactly at / one past the 1 KiB buffer, plus heads ending within one byte of the buffer); deviation 1 = each of 36 structural edits and every truncation point; deviation 2 (thorough) = pairs on a reduced base set. Every byte string is the first read of a fresh connection through the real parser; accepted requests have every accessor called under catch_unwind; refusals are serialized by the real send and re-parsed.",
+        "level_text": "Bounded exhaustive exploration of the input space organised by deviations: deviation 0 = the full product of menus (methods x 12 targets x ordered selections of 0..2 (quick) / 0..3 (thorough) header lines from a 13-line menu covering canonical/lower/mixed-case standard names, custom names in two cases, repeated names, empty and odd values x bodies incl. NUL-leading ones and bodies ending exactly at / one past the 1 KiB buffer, plus heads ending within one byte of the buffer); deviation 1 = each of 36 structural edits and every truncation point; deviation 2 (thorough) = pairs on every 5th base. Every byte string is the first read of a fresh connection through the real parser; accepted requests have every accessor called under catch_unwind; refusals are serialized by the real send and re-parsed.",
         "level_note": "Trusted: the reference parser of the subset (refmodel/httpreq.rs, unit-tested), which decides complete / incomplete / invalid; the scripted reader models one read(2) returning min(available, buffer) bytes and then nothing. Whitespace around values, equal duplicate Content-Length, leading-zero lengths and heads larger than the buffer are counted as ambiguous. Byte values outside the menus and requests arriving in several reads (C06) are not covered here.",
         "jobs": {"quick": 16, "thorough": 16},
         "assumptions": COMMON_ASSUMPTIONS + ["the whole byte string is handed over by the first read; afterwards the reader answers Pending without registering a waker"],
@@ -140,7 +140,7 @@ PROPS = {
      'engine': 'vmc',
      'level_text': "Bounded exhaustive exploration: every value of each shape's finite domain (booleans, integers at MIN/-1/0/1/MAX, 9 floats compared bitwise, "
                    'chars and all strings of length <=3 over 10 characters including reserved, non-ASCII and astral ones, options, unit enums, newtypes, sequences '
-                   'of length 0..3, string maps) is serialized with serde_urlencoded::to_string and read back; every text of at most 3 (quick) / 4 (thorough) '
+                   'of length 0..3, string maps) is serialized with serde_urlencoded::to_string and read back; every text of at most 3 (quick) / 5 (thorough) '
                    'pairs over 4 keys x 9 values is decoded into 6 targets, through from_bytes, through Request.query.parse and through Request.query.iter, and '
                    'compared with the reference.',
      'level_note': 'Trusted: the 120-line reference codec in harness/src/refmodel/urlenc.rs (self-tested on RFC 3986 examples) and Debug-format equality of values '
@@ -358,7 +358,7 @@ PROPS = {
         "level": "model_checking",
         "technique": "stateless depth-first exploration (CHESS style, preemption-bounded, replay-based) of all interleavings of the real accept-loop poll and the real signal handler at hook-provided scheduling points, with a real SIGINT, one fresh process per schedule; plus exhaustive enumeration of session mixes x completion orders",
         "engine": "vmc (+ shutdown_child, one process per schedule)",
-        "level_text": "(a) Interleaving space of the lost-wake-up protocol: threads P (the poll of howl's until_interrupt: before polling accept / after reading the flag as false / after publishing the waker) and H (ctrlc's handler thread: before store / after store / after swap / after wake) are stepped one atomic action at a time by a controller; environment events SIG (real SIGINT) and CONN (a client connects). All schedules within a preemption bound are explored depth-first by re-execution (quick: bound 4 without CONN, bound 2 with one CONN; thorough: bounds 8 / 4 / 3 for 0 / 1 / 2 CONN - bound 8 is the complete interleaving space for the first poll). Quiescence is decided (no enabled actor), the oracle is: howl returned <=> SIGINT was raised. (b) In-flight sessions: 0..2 (quick) / 0..3 (thorough) sessions of kinds {handler blocked on a harness gate, idle keep-alive connection} x every permutation of {SIGINT, session k finishes}; after every event: returned == (signal seen and all sessions finished), and every blocked handler still delivers its response.",
+        "level_text": "(a) Interleaving space of the lost-wake-up protocol: threads P (the poll of howl's until_interrupt: before polling accept / after reading the flag as false / after publishing the waker) and H (ctrlc's handler thread: before store / after store / after swap / after wake) are stepped one atomic action at a time by a controller; environment events SIG (real SIGINT) and CONN (a client connects). All schedules within a preemption bound are explored depth-first by re-execution (quick: bound 4 without CONN, bound 2 with one CONN; thorough: bounds 8 / 5 / 4 for 0 / 1 / 2 CONN - bound 8 is the complete interleaving space for the first poll). Quiescence is decided (no enabled actor), the oracle is: howl returned <=> SIGINT was raised. (b) In-flight sessions: 0..2 (quick) / 0..3 (thorough) sessions of kinds {handler blocked on a harness gate, idle keep-alive connection} x every permutation of {SIGINT, session k finishes}; after every event: returned == (signal seen and all sessions finished), and every blocked handler still delivers its response.",
         "level_note": "Trusted: hook H6 (scheduling points placed between the atomic operations; the points themselves do not change the operations), the controller's canonical choice order, the child replaying a prefix exactly (any divergence is exit 2). Not covered: weak-memory reorderings of WaitGroup's Relaxed/Release/Acquire counter (the controller serialises at hook points; x86-TSO), runtimes other than tokio (glommio's Mutex<Vec<Waker>> variant). The Promela extension of DESIGN section 5 was not built (section 12).",
         "jobs": {"quick": 16, "thorough": 16},
         "wall_cap_s": {"quick": 50, "thorough": 1500},
@@ -369,7 +369,7 @@ PROPS = {
         "level": "model_checking",
         "technique": "explicit enumeration of directory trees (materialized on disk) x omit-extension settings x mount routes x variants, and of all file / directory / traversal / encoding / near-miss requests; responses of the real router are compared with the path->(bytes, mime) map computed from the tree",
         "engine": "vmc",
-        "level_text": "Bounded exhaustive exploration of configuration x input space: trees of 1..2 (quick, complete) / 1..3 (thorough, triples with at most one deep entry) entries from 8 file kinds (every supported text/binary extension class, an empty file, a 256-byte-values binary, index.html) x 4 directories nested <=2 deep, omit_extensions in {-, [html], [html,txt]}, mount routes /, /s, /s/t, variants {plain, sibling param route, symlink to a file outside, files modified/deleted/added after mounting}; per configuration every file path (GET/HEAD/POST, trailing slash), every directory path, .. / %2e%2e / // / %2F variants, near-miss names, paths of outside files.",
+        "level_text": "Bounded exhaustive exploration of configuration x input space: trees of 1..2 (quick, complete) / 1..3 (thorough, complete) entries from 8 file kinds (every supported text/binary extension class, an empty file, a 256-byte-values binary, index.html) x 4 directories nested <=2 deep, omit_extensions in {-, [html], [html,txt]}, mount routes /, /s, /s/t, variants {plain, sibling param route, symlink to a file outside, files modified/deleted/added after mounting}; per configuration every file path (GET/HEAD/POST, trailing slash), every directory path, .. / %2e%2e / // / %2F variants, near-miss names, paths of outside files.",
         "level_note": "Trusted: the path map computed from the tree description, the C01 reference matcher (for the sibling param route), the independent HTTP response parser. Trees the framework documents as unsupported (two files mapping to one path) are skipped and counted; `/index` with html omitted and percent-encoded ordinary characters are counted as ambiguous. Scratch trees live on tmpfs (/dev/shm) when available.",
         "jobs": {"quick": 16, "thorough": 16},
         "assumptions": ROUTER_ASSUMPTIONS + ["the directory tree is created by the harness on a local file system; only regular files, directories and one symlink are generated"],
@@ -379,7 +379,7 @@ PROPS = {
         "level": "exploration",
         "technique": "exhaustive enumeration of structured input families against an independent reference (bounded model checking of a pure function)",
         "engine": "vmc",
-        "level_text": "Bounded exhaustive exploration: every day number 0..2932896 at two seconds, every second of 12+ boundary days, every n < 2e6 (quick) / 1e7 (thorough) plus structured 64-bit families, each compared with an independent reference. Exhaustive within those ranges; a pure function needs no more than input enumeration.",
+        "level_text": "Bounded exhaustive exploration: every day number 0..2932896 at two seconds, every second of 12+ boundary days, every n < 2e6 (quick) / 1e8 decimal, 2^27 hexadecimal (thorough) plus structured 64-bit families; thorough also every day at one instant of each of its 24 hours, each compared with an independent reference. Exhaustive within those ranges; a pure function needs no more than input enumeration.",
         "level_note": "Trusted: Hinnant's civil_from_days as re-implemented in the harness (self-tested on RFC 9110 examples) and Rust std integer formatting. Values between the enumerated families are not covered.",
         "jobs": {"quick": 8, "thorough": 16},
         "assumptions": COMMON_ASSUMPTIONS + [
